@@ -769,7 +769,7 @@ func (ex *Exec) havocWrites(w *writes, st *State, onlyOuter bool) {
 		st.ghost["calls:"+name] = scalarV(types.Typ[types.Int], freshVar("ghost|calls:"+name, sortInt))
 	}
 	for g := range w.ghosts {
-		nv := freshValue("ghost|"+g, types.NewSlice(types.Typ[types.Byte]))
+		nv := freshValue("ghost|"+g, types.NewSlice(ghostByteT))
 		st.assumeValid(nv)
 		st.ghost[g] = nv
 	}
